@@ -23,8 +23,17 @@ ACTSETS = {
 }
 ACT_NAMES = ["Admin", "Read", "Write", "List", "Tagging", "ReadB1", "WriteB1", "WriteB2", "AdminB1", "ReadBstar", "None"]
 ANON_NAMES = ["absent", "Read", "WriteB1List"]
-POL_ACTS = ["s3:Get*", "s3:Put*", "s3:List*", "s3:*", "s3:DeleteObject", "s3:Tagging*"]
-POL_RES = ["arn:aws:s3:::b1/*", "arn:aws:s3:::*", "arn:aws:s3:::b2", "arn:aws:s3:::b2/*"]
+# IAM policy alphabets; what each token NAMES is defined in S3Auth.tla (ActClass / ResBuckets)
+POL_ACTS = ["s3:Get*", "s3:Put*", "s3:List*", "s3:*", "s3:DeleteObject", "s3:Tagging*",
+            "*", "s3:get*", "s3:Bogus*", "iam:Get*"]
+POL_RES = ["arn:aws:s3:::b1/*", "arn:aws:s3:::*", "arn:aws:s3:::b2", "arn:aws:s3:::b2/*",
+           "arn:aws:s3:::b1", "arn:aws:s3:::b1*/*", "arn:aws:s3:::*/*", "*", "arn:aws:iam:::b1/*", "b1/*",
+           "arn:aws:s3:::b1/x/*", "arn:aws:s3:::/*"]
+MAPPED_ACTS = ["s3:Get*", "s3:Put*", "s3:List*", "s3:*", "s3:Tagging*"]
+PARSED_RES = ["arn:aws:s3:::b1/*", "arn:aws:s3:::*", "arn:aws:s3:::b2/*", "arn:aws:s3:::b1*/*", "arn:aws:s3:::*/*"]
+IREQ_ROUTES = ["GetObject", "HeadObject", "PutObject", "DeleteObject", "ListObjectsV1", "ListObjectsV2", "PutBucket",
+               "DeleteBucket", "ListBuckets", "GetObjectTagging", "PutObjectTagging", "CopyObject",
+               "ListMultipartUploads", "NewMultipartUpload", "HeadBucket", "DeleteMultipleObjects"]
 
 
 def tla_actsets():
@@ -52,12 +61,122 @@ def consts(maxops, kfm):
             "PolActs": set(POL_ACTS), "PolRes": set(POL_RES), "KFM": set(kfm), "MaxOps": maxops}
 
 
+def iam_execs(rng, n):
+    """Seeded IAM API call sequences (inputs only) followed by requests signed with the keys they made."""
+    def stmt():
+        if rng.random() < 0.6:
+            return {"eff": "Allow" if rng.random() < 0.8 else "Deny",
+                    "acts": rng.sample(MAPPED_ACTS, rng.choice([1, 1, 2])),
+                    "res": rng.sample(PARSED_RES, rng.choice([1, 1, 2]))}
+        return {"eff": rng.choice(["Allow", "Allow", "Deny"]),
+                "acts": rng.sample(POL_ACTS, rng.choice([1, 2])), "res": rng.sample(POL_RES, rng.choice([1, 2]))}
+
+    def op(o, u="u1", key="", pname="", stmts=()):
+        return {"ev": "iamop", "op": o, "user": u, "key": key, "pname": pname, "stmts": list(stmts)}
+    out = []
+    for _ in range(n):
+        ops, keys, kc = [], [], 0
+
+        def step():
+            nonlocal kc
+            u = "u1" if rng.random() < 0.7 else "u2"
+            r = rng.random()
+            if r < 0.40:
+                return op("PutUserPolicy", u, pname=rng.choice(["p1", "p2"]), stmts=[stmt() for _ in range(rng.choice([1, 1, 2]))])
+            if r < 0.50:
+                return op("CreateUser", u)
+            if r < 0.58:
+                return op("DeleteUser", u)
+            if r < 0.66:
+                return op("DeleteUserPolicy", u, pname=rng.choice(["p1", "p2"]))
+            if r < 0.80 or not keys:
+                kc += 1
+                keys.append((u, "k%d" % kc))
+                return op("CreateAccessKey", u, key="k%d" % kc)
+            if r < 0.88:
+                ku, k = rng.choice(keys)
+                return op("DeleteAccessKey", ku if rng.random() < 0.8 else u, key=k)
+            if r < 0.93:
+                return op("CreatePolicy", u, pname=rng.choice(["p1", "p2"]), stmts=[stmt()])
+            return op(rng.choice(["GetUserPolicy", "ListUsers", "ListAccessKeys", "GetUser"]), u, pname="p1")
+
+        def reqs(k, first=None):
+            res = []
+            for i in range(k):
+                u, key = rng.choice(keys) if keys and rng.random() < 0.95 else ("u1", "k99")
+                rt = first if first and i == 0 else rng.choice(IREQ_ROUTES)
+                b = "b3" if rt == "PutBucket" else "" if rt == "ListBuckets" else rng.choice(["b1", "b1", "b1x", "b2"])
+                res.append({"ev": "ireq", "route": rt, "bucket": b, "user": u, "key": key})
+            return res
+        def grant(u, pn="p1"):
+            return op("PutUserPolicy", u, pname=pn, stmts=[{"eff": "Allow", "acts": rng.sample(MAPPED_ACTS, rng.choice([1, 2])),
+                                                           "res": rng.sample(PARSED_RES, rng.choice([1, 2]))}])
+
+        def newkey(u):
+            nonlocal kc
+            kc += 1
+            keys.append((u, "k%d" % kc))
+            return op("CreateAccessKey", u, key="k%d" % kc)
+        shape = rng.random()
+        if shape < 0.40:
+            # free form
+            evs = [step() for _ in range(rng.randint(2, 5))]
+            if not keys:
+                evs.insert(rng.randint(0, len(evs)), newkey("u1"))
+            evs += reqs(3)
+            if rng.random() < 0.5:
+                evs += [step() for _ in range(rng.randint(1, 2))] + reqs(2)
+        elif shape < 0.65:
+            # a key that worked is revoked (key deleted / user deleted / policy deleted), then used again
+            u = rng.choice(["u1", "u2"])
+            evs = [newkey(u), grant(u)]
+            rng.shuffle(evs)
+            evs += reqs(2)
+            evs.append(rng.choice([op("DeleteAccessKey", u, key=keys[0][1]), op("DeleteAccessKey", u, key=keys[0][1]),
+                                   op("DeleteUser", u), op("DeleteUserPolicy", u, pname="p1")]))
+            if rng.random() < 0.3:
+                evs.append(op("CreateUser", u))
+            evs += reqs(3, "ListBuckets")   # needs nothing but a live key
+        elif shape < 0.82:
+            # a broad document replaced by a narrow one under the same / another name
+            u = "u1"
+            evs = [newkey(u), op("PutUserPolicy", u, pname="p1", stmts=[{"eff": "Allow", "acts": ["s3:*"], "res": ["arn:aws:s3:::*"]}]),
+                   grant(u, rng.choice(["p1", "p1", "p2"]))]
+            evs += reqs(3)
+        else:
+            # two users: the document is put for one, the key belongs to the other
+            evs = [newkey("u2"), op("CreateUser", "u1"), grant("u1")]
+            rng.shuffle(evs)
+            evs += reqs(3)
+        out.append(evs)
+    return out
+
+
+def sconsts(kfm, noverify=False, thorough=True):
+    c = consts(1, kfm)
+    c.update({"NoVerify": noverify, "MaxChunks": 2, "ChunkSizes": {5, 70000},
+              "SActs": {"Admin", "WriteB1"} if thorough else {"Admin"}})
+    return c
+
+
+def iconsts(kfm, maxops, users=("u1", "u2")):
+    c = consts(maxops, kfm)
+    c.update({"PolActs": {"s3:Get*", "s3:*", "s3:DeleteObject"},
+              "PolRes": {"arn:aws:s3:::b1/*", "arn:aws:s3:::*", "arn:aws:s3:::b1"},
+              "MUsers": set(users), "KeyToks": {"k1", "k2"}})
+    return c
+
+
+STREAM_CFG = "SPECIFICATION SSpec\nINVARIANT StreamSound\nINVARIANT ReachOnlyAllowed\nCHECK_DEADLOCK FALSE\n"
+
+
 def run(ctx):
     from concurrent.futures import ThreadPoolExecutor
-    ctx.sany("S3Auth", "S3AuthTrace")
+    ctx.sany("S3Auth", "S3AuthTrace", "S3AuthStreamImpl", "S3AuthIamImpl")
     kf = set(ctx.kf_open.keys())
     script = os.path.join(ctx.out, "script.ndjson")
     pscript = os.path.join(ctx.out, "pol_script.ndjson")
+    iscript = os.path.join(ctx.out, "iam_script.ndjson")
     rng = random.Random(ctx.seed)
     cfgs = {}
     for an in ANON_NAMES:
@@ -65,27 +184,69 @@ def run(ctx):
         write_config(cfgs[an], an)
     mc_cfg = open(os.path.join(vf.SPEC, "S3Auth_mc.cfg")).read()
     pol_cfg = open(os.path.join(vf.SPEC, "S3Auth_pol.cfg")).read()
+    iam_cfg = open(os.path.join(vf.SPEC, "S3AuthIamImpl_mc.cfg")).read()
     # 1+2. one TLC run per part: it model-checks the design invariants (decision table, model of the
-    # gateway's procedure with the known deviations; reference policy translation) over the whole
-    # abstract space and emits that space as the script (generator mode)
-    pol_mode = None
+    # gateway's procedure with the known deviations; reference policy translation; model of the
+    # streaming reader; model of the IAM handlers) over the whole abstract space and emits that space
+    # as the script (generator mode)
+    have = {"main": False, "pol": False, "iam": False}
     if ctx.replay:
-        # a saved violation (or any recorded trace) is the script: requests and policy documents may be mixed
+        # a saved violation (or any recorded trace) is the script; executions are sorted by their
+        # reset line into the three driver runs (gateway config / IAM API / policy documents)
         binp = ctx.build("c26")
+        outs = {"main": open(script, "w"), "pol": open(pscript, "w"), "iam": open(iscript, "w")}
+        cur = None
+        for line in open(ctx.replay):
+            e = json.loads(line)
+            if e.get("ev") == "reset":
+                cur = "iam" if "iam" in e else "main" if "gw" in e else "pol"
+                if cur == "main":
+                    e["zcfg"] = cfgs[e["gw"]]   # the configuration files live under this run's scratch directory
+            if cur:
+                have[cur] = True
+                outs[cur].write(json.dumps(e) + "\n")
+        for f in outs.values():
+            f.close()
     else:
         g = ctx.instance("G_S3Auth", "S3Auth", mc_cfg + "INVARIANT Emit\n", consts(1, kf))
-        gp = ctx.instance("G_S3AuthPol", "S3Auth", pol_cfg + "INVARIANT EmitPol\n", consts(2, kf))
-        with ThreadPoolExecutor(max_workers=3) as pool:
+        gp = ctx.instance("G_S3AuthPol", "S3Auth", pol_cfg + "INVARIANT EmitPol\n", consts(1, kf))
+        gs = ctx.instance("G_S3AuthStream", "S3AuthStreamImpl", STREAM_CFG + "INVARIANT EmitS\n",
+                          sconsts(kf, thorough=ctx.thorough))
+        mi = ctx.instance("MC_S3AuthIam", "S3AuthIamImpl", iam_cfg,
+                          iconsts(kf, 4, ("u1", "u2")) if ctx.thorough else iconsts(kf, 3, ("u1",)))
+
+        # four single-worker TLC runs side by side (a generator prints its histories from one thread anyway)
+        with ThreadPoolExecutor(max_workers=5) as pool:
             fb = pool.submit(ctx.build, "c26")
-            fh = pool.submit(ctx.generate, g, "W", 2, 900)
-            fp = pool.submit(ctx.generate, gp, "W", 2, 1500)
-            hists, pols, binp = fh.result(), fp.result(), fb.result()
-        if ctx.thorough and kf:
-            # without the known deviations the model of the gateway is NOT sound: TLC exhibits the bypass
-            mcs = ctx.instance("MC_S3AuthStrict", "S3Auth",
-                               "SPECIFICATION Spec\nINVARIANT GwSound\nCHECK_DEADLOCK FALSE", consts(1, set()))
-            ctx.model_check(mcs, workers=2, expect_violation="GwSound", coverage=False)
+            fh = pool.submit(ctx.generate, g, "W", 1, 900)
+            fs = pool.submit(ctx.generate, gs, "W", 1, 900)
+            fp = pool.submit(ctx.generate, gp, "W", 1, 1500)
+            fm = pool.submit(ctx.model_check, mi, 1, 1500, False)
+            hists, shists, pols, binp = fh.result(), fs.result(), fp.result(), fb.result()
+            fm.result()
+        if ctx.thorough:
+            if kf:
+                # without the known deviations the model of the gateway is NOT sound: TLC exhibits the bypass
+                mcs = ctx.instance("MC_S3AuthStrict", "S3Auth",
+                                   "SPECIFICATION Spec\nINVARIANT GwSound\nCHECK_DEADLOCK FALSE", consts(1, set()))
+                ctx.model_check(mcs, workers=2, expect_violation="GwSound", coverage=False)
+            # a reader that does not compare chunk signatures stores a body nobody signed; and the
+            # models are not vacuous: a valid upload is committed, some document grants something
+            nv = ctx.instance("MC_S3AuthStreamNoVerify", "S3AuthStreamImpl", STREAM_CFG, sconsts(kf, True))
+            ctx.model_check(nv, workers=2, expect_violation="StreamSound", coverage=False)
+            nc = ctx.instance("MC_S3AuthStreamLive", "S3AuthStreamImpl",
+                              "SPECIFICATION SSpec\nINVARIANT NeverCommitted\nCHECK_DEADLOCK FALSE\n", sconsts(kf))
+            ctx.model_check(nc, workers=2, expect_violation="NeverCommitted", coverage=False)
+            ng = ctx.instance("MC_S3AuthIamLive", "S3AuthIamImpl",
+                              "SPECIFICATION ISpec\nINVARIANT NothingGranted\nVIEW IView\nCHECK_DEADLOCK FALSE\n",
+                              iconsts(kf, 3))
+            ctx.model_check(ng, workers=2, expect_violation="NothingGranted", coverage=False)
+            if "C26-putuserpolicy-accumulates" in kf:
+                # handlers that only ever append actions are NOT sound against documents that replace each other
+                ia = ctx.instance("MC_S3AuthIamStrict", "S3AuthIamImpl", iam_cfg, iconsts(set(), 3))
+                ctx.model_check(ia, workers=2, expect_violation="IamSound", coverage=False)
         total = len(hists)
+        stotal = len(shists)
         if not ctx.thorough:
             # stratified: every (route, style) pair three times, then a seeded sample
             by = {}
@@ -94,6 +255,11 @@ def run(ctx):
             pick = []
             for k in sorted(by):
                 pick += rng.sample(by[k], min(3, len(by[k])))
+                # ... and once with a valid credential of the unrestricted identity: the accepting path of
+                # every route x style (handler-side verification included) is executed whatever the seed
+                pos = [h for h in by[k] if h[0]["cred"] in ("valid", "na") and h[0]["acts"] in ("Admin", "None")
+                       and (h[0]["cred"] == "valid" or h[0]["anon"] == "WriteB1List")]
+                pick += rng.sample(pos, min(1, len(pos)))
             pick += rng.sample(hists, min(len(hists), 1000))
             # validly signed requests of identities limited to b1 (and the anonymous identity limited to b1)
             # addressed to b1x, whose name merely starts with "b1"
@@ -108,8 +274,34 @@ def run(ctx):
                     seen.add(k)
                     uniq.append(h)
             hists = uniq
+            # streaming uploads: half of the sample from the uploads whose seed passes (the chunk reader
+            # runs), stratified by what is wrong with the body; the rest from the whole space
+            def flaws(h):
+                e = h[0]
+                f = [(i, c["k"]) for i, c in enumerate(e["chunks"]) if c["k"] != "ok"]
+                return f + ([("fin", e["fin"])] if e["fin"] != "ok" else [])
+            run_reader = [h for h in shists if h[0]["cred"] == "valid" and h[0]["acts"] in ("Admin", "WriteB1")
+                          and h[0]["bucket"] == "b1"]
+            byf = {}
+            for h in run_reader:
+                f = flaws(h)
+                byf.setdefault("valid" if not f else f[0] if len(f) == 1 else "several", []).append(h)
+            spick = []
+            for k in sorted(byf, key=str):
+                spick += rng.sample(byf[k], min(40 if k == "valid" else 50 if k == "several" else 8, len(byf[k])))
+            spick += rng.sample(shists, min(len(shists), 100))
+            seen, uniq = set(), []
+            for h in spick:
+                k = json.dumps(h, sort_keys=True)
+                if k not in seen:
+                    seen.add(k)
+                    uniq.append(h)
+            shists = uniq
         ctx.notes["abstract_requests_total"] = total
         ctx.notes["abstract_requests_run"] = len(hists)
+        ctx.notes["streaming_uploads_total"] = stotal
+        ctx.notes["streaming_uploads_run"] = len(shists)
+        hists = hists + shists
         rng.shuffle(hists)
         with open(script, "w") as f:
             for h in hists:
@@ -119,6 +311,8 @@ def run(ctx):
                     f.write(json.dumps(op) + "\n")
         # TLC enumerated every single statement; add seeded documents of two full statements
         singles = [p[0]["stmts"][0] for p in pols if len(p[0]["stmts"]) == 1]
+        if not ctx.thorough:
+            pols = rng.sample(pols, min(len(pols), 2000))
         pols = pols + [[{"ev": "pol", "stmts": [rng.choice(singles), rng.choice(singles)]}]
                        for _ in range(20000 if ctx.thorough else 1500)]
         ctx.notes["policy_documents_run"] = len(pols)
@@ -127,6 +321,14 @@ def run(ctx):
                 f.write(json.dumps({"ev": "reset"}) + "\n")
                 for op in h:
                     f.write(json.dumps(op) + "\n")
+        iams = iam_execs(rng, 1200 if ctx.thorough else 90)
+        ctx.notes["iam_api_executions_run"] = len(iams)
+        with open(iscript, "w") as f:
+            for h in iams:
+                f.write(json.dumps({"ev": "reset", "iam": 1}) + "\n")
+                for op in h:
+                    f.write(json.dumps(op) + "\n")
+        have = {"main": True, "pol": True, "iam": True}
 
     cons = consts(0, kf)
 
@@ -137,7 +339,7 @@ def run(ctx):
         # a denied request (no valid credential, no anonymous identity) recorded as having reached the filer
         for i, e in enumerate(evs):
             if e["ev"] == "req" and e["cred"] not in ("valid",) and e["anon"] == "absent" and not e["touched"] \
-                    and e["style"] not in ("UFORM", "POSTPOL"):
+                    and e["style"] not in ("UFORM", "POSTPOL", "POSTPOL2"):
                 m = [dict(x) for x in evs]
                 m[i]["touched"] = [{"via": "grpc", "m": "DeleteEntry", "p": ["buckets", "b1", "obj"], "st": 0}]
                 m[i]["changed"] = True
@@ -148,50 +350,101 @@ def run(ctx):
         for i, e in enumerate(evs):
             if e["ev"] == "pol" and all(s["eff"] == "Deny" for s in e["stmts"]):
                 m = [dict(x) for x in evs]
-                m[i]["out"] = [{"a": "Read", "b": ""}]
+                m[i]["out"] = [{"a": "Read", "b": "", "g": True}]
                 return m
         return None
 
+    def mutate_stream(evs):
+        # an upload with a chunk that does not verify recorded as stored
+        for i, e in enumerate(evs):
+            if e["ev"] == "sreq" and e["cred"] == "valid" and not e["present"] and \
+                    any(c["k"] != "ok" for c in e["chunks"]):
+                m = [dict(x) for x in evs]
+                m[i]["present"] = True
+                m[i]["stored"] = [{"c": "A", "n": e["chunks"][0]["n"]}]
+                return m
+        return None
+
+    def mutate_iam(evs):
+        # a user nobody put a document for recorded with a global action
+        for i, e in enumerate(evs):
+            if e["ev"] == "iamop" and e["op"] == "CreateAccessKey" and e["user"] == "zsync":
+                m = [dict(x) for x in evs]
+                m[i]["ids"] = [dict(x) for x in e["ids"]]
+                for j, d in enumerate(m[i]["ids"]):
+                    if d["name"] == "zsync":
+                        m[i]["ids"][j] = dict(d, acts=[{"a": "Write", "b": "", "g": True}])
+                        return m
+        return None
+
     nt = lambda e: nontrivial(e) or '"a":' in "".join(e)
+    # three driver processes side by side: gateways with identity files / policy documents / IAM API
+    with ThreadPoolExecutor(max_workers=3) as pool:
+        futs = {}
+        if have["main"]:
+            futs["main"] = pool.submit(ctx.drive, binp, ["--script", script], 1500)
+        if have["pol"]:
+            futs["pol"] = pool.submit(ctx.drive, binp, ["--script", pscript, "--mode", "iam"], 1200, None, "pol_trace")
+        if have["iam"]:
+            futs["iam"] = pool.submit(ctx.drive, binp, ["--script", iscript, "--mode", "iamapi"], 1500, None, "iam_trace")
+        traces = {k: f.result() for k, f in futs.items()}
     if ctx.replay:
-        # the gateway configuration files are rewritten under this run's scratch directory
-        rs = os.path.join(ctx.out, "replay.ndjson")
-        with open(rs, "w") as f:
-            for line in open(ctx.replay):
-                e = json.loads(line)
-                if e.get("ev") == "reset" and "gw" in e:
-                    e["zcfg"] = cfgs[e["gw"]]
-                f.write(json.dumps(e) + "\n")
-        trace = ctx.drive(binp, ["--script", rs], timeout=1500)
-        ctx.judge("S3AuthTrace", trace, "trace_base.cfg", cons, nontrivial=nt)
+        for k in traces:
+            ctx.judge("S3AuthTrace", traces[k], "trace_base.cfg", cons, nontrivial=nt, label=k)
+    elif ctx.thorough:
+        # the main trace is judged twice so that both of its binding self-tests are run
+        ctx.judge("S3AuthTrace", traces["main"], "trace_base.cfg", cons, nontrivial=nt, mutate=mutate, label="req")
+        ctx.judge("S3AuthTrace", traces["pol"], "trace_base.cfg", cons, nontrivial=nt, mutate=mutate_pol, label="pol")
+        ctx.judge("S3AuthTrace", traces["iam"], "trace_base.cfg", cons, nontrivial=nt, mutate=mutate_iam, label="iam")
+        only_s = os.path.join(ctx.out, "stream_only.ndjson")
+        with open(only_s, "w") as f:
+            keep = False
+            prev = None
+            for line in open(traces["main"]):
+                if '"ev":"reset"' in line[:40]:
+                    prev = line
+                    continue
+                if prev is not None:
+                    keep = '"ev":"sreq"' in line
+                    if keep:
+                        f.write(prev)
+                    prev = None
+                if keep:
+                    f.write(line)
+        ctx.judge("S3AuthTrace", only_s, "trace_base.cfg", cons, nontrivial=nt, mutate=mutate_stream, label="stream-selftest")
     else:
-        traces = [ctx.drive(binp, ["--script", script], timeout=1500),
-                  ctx.drive(binp, ["--script", pscript, "--mode", "iam"], name="pol_trace")]
-        if ctx.thorough:
-            ctx.judge("S3AuthTrace", traces[0], "trace_base.cfg", cons, nontrivial=nt, mutate=mutate, label="req")
-            ctx.judge("S3AuthTrace", traces[1], "trace_base.cfg", cons, nontrivial=nt, mutate=mutate_pol, label="pol")
-        else:
-            # quick: one judge run over both traces; the binding self-test alternates with the seed
-            both = os.path.join(ctx.out, "both.ndjson")
-            with open(both, "w") as f:
-                for t in traces:
-                    f.write(open(t).read())
-            ctx.judge("S3AuthTrace", both, "trace_base.cfg", cons, nontrivial=nt,
-                      mutate=mutate if ctx.seed % 2 else mutate_pol)
-    ctx.rule = ("requests = TLC-enumerated abstract requests route(23) x auth style(10) x credential kind x identity "
-                "action set(11) x target bucket (b1, and b1x whose name extends b1) x anonymous configuration(3) (quick: stratified seeded sample, thorough: all), each "
+        # quick: one judge run over all traces; the binding self-test rotates with the seed
+        both = os.path.join(ctx.out, "both.ndjson")
+        with open(both, "w") as f:
+            for k in ("main", "pol", "iam"):
+                f.write(open(traces[k]).read())
+        ctx.judge("S3AuthTrace", both, "trace_base.cfg", cons, nontrivial=nt,
+                  mutate=[mutate_pol, mutate, mutate_stream, mutate_iam][ctx.seed % 4])
+    ctx.rule = ("requests = TLC-enumerated abstract requests route(23) x auth style(11) x credential kind x identity "
+                "action set(11) x target bucket (b1, and b1x whose name extends b1) x anonymous configuration(3) (quick: stratified seeded sample "
+                "incl. one accepted request per route x style, thorough: all), each "
                 "instantiated as a real signed HTTP request against a real gateway+filer; non-trivial = the request "
-                "reached the filer (some filer call or a namespace change); policies = TLC-enumerated IAM documents of "
-                "1-2 statements given to the real GetActions; non-trivial = some action granted; distinct by hash")
+                "reached the filer (some filer call or a namespace change); streaming uploads = TLC-enumerated "
+                "(route, seed credential, identity, bucket, 0-2 chunks x size x chunk flaw, final-chunk flaw, declared length), "
+                "quick: stratified by flaw; policies = TLC-enumerated IAM documents of "
+                "1-2 statements given to the real GetActions; non-trivial = some action granted; IAM API = seeded call "
+                "sequences (2-7 calls over 2 users, documents of 1-2 statements) against the real IAM API server + requests "
+                "signed with the keys it made; distinct by hash")
     ctx.exhaustive = ctx.thorough
     ctx.assumptions += [
         "a request 'reaches the filer' iff a filer gRPC/HTTP call other than the background streams (SubscribeMetadata, "
         "KeepConnected, KvGet/KvPut, LookupVolume, GetFilerConfiguration, Statistics) is made while it is in flight, or "
-        "the namespace (everything except /topics) differs afterwards; this gateway makes no filer call before "
+        "the namespace (everything except /topics; in the IAM API runs also except /etc) differs afterwards; this gateway makes no filer call before "
         "authorization (s3api_server.go track -> iam.Auth -> handler), so no pre-authorization lookup is exempted",
         "requests are sent one at a time; the namespace is restored after every request that changed it",
         "the signer in harness/s3util is the trusted producer of valid/invalid signatures; 'tampered' changes the "
         "signed header x-amz-meta-t (or the signed policy) after signing",
         "Need(route) in S3Auth.tla is the weakest reasonable action per route (HeadBucket: Read or List, bucket "
         "create/delete: Write, list uploads/parts: Read or List); a copy source in the same bucket is used",
+        "a streaming upload has taken effect iff the namespace changed or the target object exists afterwards; a valid "
+        "streaming signature = seed signature + every chunk signature + the final zero-length chunk's signature; a wrong "
+        "x-amz-decoded-content-length is not a signature matter (either outcome admitted)",
+        "IAM API: what a policy token names is the table ActClass / ResBuckets of S3Auth.tla (AWS reading, upper bound); "
+        "named[user] only grows with the documents put for the user and is forgotten when the user is deleted; the "
+        "gateway is given time to apply an identity change (the driver waits until a key made after the change is accepted)",
     ]
